@@ -8,7 +8,7 @@
   "replace": [],
   "assumed": [],
   "mode": "bounded",
-  "bounds": "encoded block length inlen <= BLK bytes (quick 32, thorough 48), output buffer <= BLK; every content, block type and both verifyUnpaddedLen modes.  Case shape: static buffers with 2 spare bytes (decides the encoding clauses); case exact: heap objects of exactly inlen / outlen bytes, so that every access or pointer outside them is an obligation",
+  "bounds": "encoded block length inlen <= BLK bytes (quick 32, thorough 48), output buffer <= BLK; every content, block type and both verifyUnpaddedLen modes.  Case shape: static buffers with 2 spare bytes (decides the encoding clauses); case exact: BLK = 20, heap objects of exactly inlen / outlen bytes, so that every access or pointer outside them is an obligation",
   "defs_quick": ["BLK=32"],
   "defs_thorough": ["BLK=48"],
   "cases": [
@@ -34,6 +34,11 @@
 
 #ifndef BLK
 # define BLK 32
+#endif
+#ifdef EXACT
+/* symbolic-size heap objects are expensive (BLK = 32: 300 s): the exact-bounds case uses a shorter block */
+# undef BLK
+# define BLK 20
 #endif
 
 #ifdef EXACT
